@@ -7,6 +7,8 @@
    Mode "coarse": every string up to MaxLen over the coarse alphabet (one representative per character class)
    Mode "fine":   every string up to 2 characters over all 128 ASCII code points, boundary runes and raw bytes
    Mode "ident":  every fine character next to identifier characters (a?, ?a, a?b, _?1, a1?)
+   Mode "nums":   every spelling of a number of 1..3 digits over 0, 1, 7, 8, 9 (leading zeros), optionally negative, in index / slice /
+                  literal positions, on a 12-element array
    Mode "c14":    for every coarse string s of valid code points: the quoted identifier, the raw string, the
                   JSON literal and a multi-select key spelled from s, with the value the property demands *)
 EXTENDS Text, Json, SequencesExt
@@ -29,6 +31,24 @@ NStrings == CountUpTo(MaxLen)
 cA == <<97>>
 SearchDocs == <<Obj({<<cA, Obj({<<cA, IntV(1)>>, <<<<98>>, Arr(<<IntV(1), IntV(2)>>)>>})>>, <<<<98>>, Arr(<<Obj({<<cA, IntV(1)>>}), IntV(2), Arr(<<IntV(3)>>)>>)>>}),
                 Arr(<<IntV(3), IntV(1), IntV(2)>>), Null>>
+
+TextCaseD(i, text, docs) ==
+  LET m == CompileModel(text) IN
+  [k |-> "case", id |-> i, n |-> Len(text), srcs |-> <<text>>,
+   compile |-> IF m[1] = "ok" THEN "ok" ELSE IF m[1] = "err" THEN "err" ELSE "any",
+   errkind |-> IF m[1] = "err" THEN m[2] ELSE "", offset |-> IF m[1] = "err" THEN m[3] ELSE -1,
+   allowed |-> IF m[1] = "ok" THEN [d \in 1..Len(docs) |-> Outcomes(m[2], docs[d])] ELSE <<>>]
+
+(* Mode "nums": every spelling of a number with 1..3 digits over {0, 1, 7, 8, 9} (leading zeros, 08 / 09, -0), optionally negative,
+   as an index, as each slice bound, after a field, and as a JSON literal: numbers are decimal (C01, C04, C08) *)
+NumDigits == <<48, 49, 55, 56, 57>>
+NumBody(j) == IF j < 5 THEN <<NumDigits[j + 1]>>
+              ELSE IF j < 30 THEN <<NumDigits[((j - 5) \div 5) + 1], NumDigits[((j - 5) % 5) + 1]>>
+              ELSE <<NumDigits[((j - 30) \div 25) + 1], NumDigits[(((j - 30) \div 5) % 5) + 1], NumDigits[((j - 30) % 5) + 1]>>
+NumSpell(j) == IF j < 155 THEN NumBody(j) ELSE <<45>> \o NumBody(j - 155)
+NumTexts(n) == << <<91>> \o n \o <<93>>, <<98, 91>> \o n \o <<93>>, <<91>> \o n \o <<58, 93>>, <<91, 58>> \o n \o <<93>>, <<91, 58, 58>> \o n \o <<93>>,
+                  <<98, 91, 49, 58>> \o n \o <<58, 50, 93>>, <<96>> \o n \o <<96>>, <<91>> \o n \o <<44, 64, 93>> >>
+NumDocs == LET big == Arr([i \in 1..12 |-> IntV(i - 1)]) IN <<big, Obj({<<<<98>>, big>>}), Arr(<<IntV(5)>>)>>
 
 TextCase(i, text) ==
   LET m == CompileModel(text) IN
@@ -66,6 +86,10 @@ Out ==
   LET hdr == [k |-> "docs", fam |-> Mode, total |-> NStrings, docs |-> SearchDocs] IN
   IF Mode \in {"coarse", "fine"}
   THEN LET mine == Mine(NStrings) IN <<hdr>> \o [m \in 1..Len(mine) |-> TextCase(mine[m], StringAt(mine[m]))]
+  ELSE IF Mode = "nums"
+  THEN LET mine == Mine(310) IN
+       <<[k |-> "docs", fam |-> Mode, total |-> 310, docs |-> NumDocs]>>
+       \o FlatCat([m \in 1..Len(mine) |-> LET ts == NumTexts(NumSpell(mine[m])) IN [j \in 1..Len(ts) |-> TextCaseD(mine[m] * 16 + j, ts[j], NumDocs)]], 1)
   ELSE IF Mode = "ident"
   THEN LET mine == Mine(Len(IdentChars)) IN
        <<hdr>> \o FlatCat([m \in 1..Len(mine) |-> LET ts == IdentTexts(IdentChars[mine[m] + 1]) IN [j \in 1..Len(ts) |-> TextCase(mine[m] * 16 + j, ts[j])]], 1)
